@@ -93,6 +93,7 @@ def carrier (st : St) : TC V where
     | .fn "min", [a, b] => if b.num < a.num then b else a           -- Python min(a, b)
     | .fn "abs", [a] => .f a.num.abs
     | .fn "round", [a] => .f (roundHE a.num)
+    | .fn "math.ceil", [a] => .f a.num.ceil
     | .fn "model._lookup", [x, .s tbl] => match st.points.lookup tbl with
       | some pts => .f (lerp pts.toArray x.num)
       | none => .bad ("points " ++ tbl)
